@@ -12,7 +12,7 @@ from ural.utils import pathsplit, urlsplit, urlunsplit, safe_urlsplit, SplitResu
 from ural.patterns import DOMAIN_TEMPLATE
 
 TELEGRAM_MESSAGE_ID_RE = re.compile(r"^\d+$")
-TELEGRAM_DOMAINS_RE = re.compile(r"(?:telegram\.(?:org|me)|t\.me)$", re.I)
+TELEGRAM_DOMAINS_RE = re.compile(r"(?:^|\.)(?:telegram\.(?:org|me)|t\.me)$", re.I)
 TELEGRAM_URL_RE = re.compile(
     DOMAIN_TEMPLATE % r"(?:[^.]+\.)*(?:telegram\.(?:org|me)|t\.me)", re.I
 )
